@@ -66,6 +66,78 @@ class OrderedSet:
     def __or__(self, o):
         return self.union(o)
 
+    __ror__ = __or__
+
+    # in-place operators mutate the object, exactly as for a real set (`a |= b` with a an alias of an attribute changes
+    # that attribute)
+    def __ior__(self, o):
+        self.update(o)
+        return self
+
+    def difference(self, *others):
+        drop = set()
+        for o in others:
+            drop.update(o)
+        return OrderedSet(x for x in self._d if x not in drop)
+
+    def __sub__(self, o):
+        return self.difference(o)
+
+    def difference_update(self, *others):
+        for o in others:
+            for x in list(o):
+                self._d.pop(x, None)
+
+    def __isub__(self, o):
+        self.difference_update(o)
+        return self
+
+    def intersection(self, *others):
+        keep = None
+        for o in others:
+            keep = set(o) if keep is None else keep & set(o)
+        return OrderedSet(x for x in self._d if keep is None or x in keep)
+
+    def __and__(self, o):
+        return self.intersection(o)
+
+    def intersection_update(self, *others):
+        r = self.intersection(*others)
+        self._d = dict.fromkeys(r._d)
+
+    def __iand__(self, o):
+        self.intersection_update(o)
+        return self
+
+    def symmetric_difference(self, o):
+        o = list(o)
+        return OrderedSet([x for x in self._d if x not in o] + [x for x in o if x not in self._d])
+
+    def __xor__(self, o):
+        return self.symmetric_difference(o)
+
+    def __ixor__(self, o):
+        r = self.symmetric_difference(o)
+        self._d = dict.fromkeys(r._d)
+        return self
+
+    def pop(self):
+        k = next(iter(self._d))
+        del self._d[k]
+        return k
+
+    def issubset(self, o):
+        return all(x in o for x in self._d)
+
+    def issuperset(self, o):
+        return all(x in self._d for x in o)
+
+    def isdisjoint(self, o):
+        return not any(x in self._d for x in o)
+
+    __le__ = issubset
+    __ge__ = issuperset
+
     def __iter__(self):
         # like a real set: changing the size while an iterator is live raises RuntimeError on its next step
         return iter(self._d)
